@@ -198,14 +198,22 @@ impl Stats {
         let mut counts = self.violation_counts.lock().unwrap();
         let c = counts.entry(key.clone()).or_insert(0);
         *c += 1;
-        // keep every unkeyed violation up to a cap, and a few representatives per finding key
+        // keep every unkeyed violation up to a cap, and a few representatives per finding key;
+        // beyond the cap still keep a few per case kind, so that a later stage of the same check
+        // (another kind of case) is never starved by an earlier, noisier one
         let cap = if key.is_empty() { 300 } else { 8 };
-        if *c <= cap {
+        let per_kind = {
+            let k = counts.entry(format!("\u{0}kind:{}", v.case.kind)).or_insert(0);
+            *k += 1;
+            *k
+        };
+        let c = counts.get(&key).copied().unwrap_or(0);
+        if c <= cap || (key.is_empty() && per_kind <= 12) {
             self.violations.lock().unwrap().push(v);
         }
     }
     pub fn violation_totals(&self) -> BTreeMap<String, u64> {
-        self.violation_counts.lock().unwrap().clone()
+        self.violation_counts.lock().unwrap().iter().filter(|(k, _)| !k.starts_with('\u{0}')).map(|(k, v)| (k.clone(), *v)).collect()
     }
     pub fn violation_count(&self) -> usize {
         self.violations.lock().unwrap().len()
